@@ -31,7 +31,8 @@ ASSUMPTIONS = [
 REQUIRED_CLASSES = ["nontrivial", "no_ports", "no_ebb", "name_match_after_id_match", "id_only_board", "named_board",
                     "unnamed_board", "snr_board", "windows_board", "foreign_device", "near_miss", "several_boards",
                     "lookup_by_name", "lookup_by_tag", "lookup_by_device", "lookup_case_variant",
-                    "lookup_earlier_also_matches", "lookup_random_key", "prefix_names", "lookup_none"]
+                    "lookup_earlier_also_matches", "lookup_random_key", "prefix_names", "lookup_none",
+                    "object_reused_after_other_scan"]
 QUICK_SHARDS = 4
 
 ebb_serial = sut.load("ebb_serial")
@@ -78,6 +79,8 @@ def body(ctx, case):
         classes.add("name_match_after_id_match")
     nontrivial = len(ports) >= 2 and bool(boards) and not is_ebb(ports[0]) or \
         (len(ports) >= 2 and len(boards) >= 2)
+    if case.get("earlier") is not None:
+        classes.add("object_reused_after_other_scan")
     ctx.record(case, classes, nontrivial=nontrivial)
     what = "with ports %r: " % (ports,)
     stub = lambda: iter(list(ports))        # noqa: E731  comports() returns an iterable
@@ -87,6 +90,19 @@ def body(ctx, case):
         obj = ebb3_serial.EBB3()
         call_sut(obj.find_first)
         got_ebb3 = obj.port_name
+        # a one-shot enumerator (pyserial returned generators in some generations): each call of comports() yields
+        # a fresh iterator; a function that walks one result twice must still see every port
+        if case.get("earlier") is not None:
+            # the same EBB3 object scanned another port list earlier: what it found then must not leak
+            classes.add("object_reused_after_other_scan")
+            reused = ebb3_serial.EBB3()
+            earlier = [tuple(p) for p in case["earlier"]]
+            with patched((ebb3_serial, "comports", lambda: iter(list(earlier)))):
+                call_sut(reused.find_first)
+            call_sut(reused.find_first)
+            if reused.port_name != named_first:
+                ctx.fail(what + "EBB3.find_first() on an object that had scanned %r before set port_name = %r, "
+                         "expected %r" % (earlier, reused.port_name, named_first), case)
         if got_legacy != named_first:
             ctx.fail(what + "ebb_serial.findPort() = %r, expected %r" % (got_legacy, named_first), case)
         if got_ebb3 != named_first:
@@ -259,7 +275,11 @@ def port_lists(draw):
             b = draw(st.integers(a + 1, len(src)))
             src = src[a:b]
         keys.append(draw(st.sampled_from([src, src.lower(), src.upper()])))
-    return {"ports": ports, "keys": keys, "tags": sorted(tags)}
+    case = {"ports": ports, "keys": keys, "tags": sorted(tags)}
+    if draw(st.integers(0, 2)) == 0:
+        m = draw(st.integers(0, 3))
+        case["earlier"] = [list(draw(port_entry(10 + k))[0]) for k in range(m)]
+    return case
 
 
 def pair_grid():
@@ -279,6 +299,11 @@ def pair_grid():
     ]
     keys = [None, "Axi", "axidraw", "COM1", "com", "East", "North_1", "zzz"]
     yield {"ports": [], "keys": keys, "tags": []}
+    for k in range(len(catalogue)):
+        # a board was found by an earlier scan of the same object; now the list holds only foreign devices / nothing
+        yield {"ports": [], "keys": [None], "tags": [], "earlier": [catalogue[k][0]]}
+        yield {"ports": [catalogue[7][0]], "keys": [None], "tags": ["foreign_device"], "earlier": [catalogue[k][0]]}
+        yield {"ports": [catalogue[k][0]], "keys": [None], "tags": sorted(catalogue[k][1]), "earlier": [catalogue[0][0]]}
     for n in (1, 2, 3):
         for combo in itertools.permutations(range(len(catalogue)), n):
             tags = set()
